@@ -8,11 +8,19 @@ namespace CimbaModel.Sim
 open CimbaModel CimbaModel.Event CimbaModel.Generated
 open CimbaModel.HashHeap (HTag Item Order HH)
 
-/-- nothing left in a process record -/
-def Proc.clean (x : Proc) : Prop := x.held = [] ∧ x.awaits = [] ∧ x.waiters = [] ∧ x.blocked = none
+/-- what the record of a process that is not running looks like: it awaits nothing and is not suspended; if it has
+    finished it moreover holds nothing and nobody is registered as waiting for it (a process that has not started
+    yet may already have waiters) -/
+def Proc.quiet (x : Proc) : Prop :=
+  x.awaits = [] ∧ x.blocked = none ∧ (x.status = .finished → x.held = [] ∧ x.waiters = [])
 
-/-- **the record of every finished process is clean** -/
-def DeadRec (w : World) : Prop := ∀ p, (w.proc p).status = .finished → (w.proc p).clean
+/-- **the record of every process that is not running is quiet** (finished: completely clean) -/
+def DeadRec (w : World) : Prop := ∀ p, (w.proc p).status ≠ .running → (w.proc p).quiet
+
+theorem DeadRec.clean {w : World} (h : DeadRec w) (p : Pid) (hp : (w.proc p).status = .finished) :
+    (w.proc p).held = [] ∧ (w.proc p).awaits = [] ∧ (w.proc p).waiters = [] ∧ (w.proc p).blocked = none := by
+  obtain ⟨a, b, c⟩ := h p (by rw [hp]; decide)
+  exact ⟨(c hp).1, a, (c hp).2, b⟩
 
 theorem DeadRec.of_proc {w w' : World} (h : DeadRec w) (e : ∀ q, w'.proc q = w.proc q) : DeadRec w' := by
   intro p hp; rw [e] at hp ⊢; exact h p hp
@@ -34,24 +42,42 @@ theorem dr_modProc_shrink {w : World} (h : DeadRec w) (z : Pid) (g : Proc → Pr
     rw [if_pos ⟨rfl, hz⟩]
     obtain ⟨a, b, c, d, e⟩ := hg
     rw [a] at hp
-    obtain ⟨h1, h2, h3, h4⟩ := h p hp
-    exact ⟨b h1, c h2, d h3, e h4⟩
+    obtain ⟨h1, h2, h3⟩ := h p hp
+    refine ⟨c h1, e h2, ?_⟩
+    intro hf; rw [a] at hf
+    exact ⟨b (h3 hf).1, d (h3 hf).2⟩
   · rename_i c; rw [if_neg c]; exact h p hp
 
 theorem dr_modProc_alive {w : World} (h : DeadRec w) (z : Pid) (g : Proc → Proc)
-    (hz : (w.proc z).status ≠ .finished) (hg : ∀ x, (g x).status = x.status) : DeadRec (w.modProc z g) := by
+    (hz : (w.proc z).status = .running) (hg : ∀ x, (g x).status = x.status) : DeadRec (w.modProc z g) := by
   intro p hp
   rw [proc_modProc] at hp ⊢
   split at hp
   · rename_i c; obtain ⟨rfl, _⟩ := c
-    rw [hg] at hp; exact absurd hp hz
+    rw [hg] at hp; exact absurd hz hp
+  · rename_i c; rw [if_neg c]; exact h p hp
+
+/-- registering a waiter with a process that has not finished -/
+theorem dr_modProc_waiters {w : World} (h : DeadRec w) (z : Pid) (g : Proc → Proc)
+    (hz : (w.proc z).status ≠ .finished)
+    (hg : ∀ x, (g x).status = x.status ∧ (g x).awaits = x.awaits ∧ (g x).blocked = x.blocked) :
+    DeadRec (w.modProc z g) := by
+  intro p hp
+  rw [proc_modProc] at hp ⊢
+  split at hp
+  · rename_i c; obtain ⟨rfl, hlt⟩ := c
+    rw [if_pos ⟨rfl, hlt⟩]
+    obtain ⟨a, b, c⟩ := hg (w.proc p)
+    rw [a] at hp
+    obtain ⟨h1, h2, _⟩ := h p hp
+    exact ⟨b.trans h1, c.trans h2, fun hf => absurd (a ▸ hf) hz⟩
   · rename_i c; rw [if_neg c]; exact h p hp
 
 theorem removeFirst_nil {α : Type _} [DecidableEq α] (a : α) : (removeFirst ([] : List α) a).1 = [] := rfl
 
 /-! ### primitives -/
 
-theorem dr_addAwait {w : World} (h : DeadRec w) (z : Pid) (a : Await) (hz : (w.proc z).status ≠ .finished) :
+theorem dr_addAwait {w : World} (h : DeadRec w) (z : Pid) (a : Await) (hz : (w.proc z).status = .running) :
     DeadRec (addAwait w z a) := dr_modProc_alive h z _ hz (fun _ => rfl)
 
 theorem dr_removeAwait {w : World} (h : DeadRec w) (z : Pid) (a : Await) : DeadRec (removeAwait w z a).1 := by
@@ -72,7 +98,7 @@ theorem dr_removeHeld {w : World} (h : DeadRec w) (z : Pid) (a : HoldRef) : Dead
   refine ⟨rfl, ?_, fun e => e, fun e => e, fun e => e⟩
   intro e; dsimp only; rw [e]; rfl
 
-theorem dr_block {w : World} (h : DeadRec w) (z : Pid) (f : Frame) (hz : (w.proc z).status ≠ .finished) :
+theorem dr_block {w : World} (h : DeadRec w) (z : Pid) (f : Frame) (hz : (w.proc z).status = .running) :
     DeadRec (block w z f).1 := dr_modProc_alive h z _ hz (fun _ => rfl)
 
 theorem dr_setVar {w : World} (h : DeadRec w) (z : Pid) (v x : Nat) : DeadRec (setVar w z v x) := by
@@ -80,7 +106,7 @@ theorem dr_setVar {w : World} (h : DeadRec w) (z : Pid) (v x : Nat) : DeadRec (s
   · exact h.of_procs rfl
   · exact dr_modProc_shrink h z _ ⟨rfl, fun e => e, fun e => e, fun e => e, fun e => e⟩
 
-theorem dr_timerAdd {w : World} (h : DeadRec w) (z : Pid) (d sig : Int) (hz : (w.proc z).status ≠ .finished) :
+theorem dr_timerAdd {w : World} (h : DeadRec w) (z : Pid) (d sig : Int) (hz : (w.proc z).status = .running) :
     DeadRec (timerAdd w z d sig).1 := by
   rw [timerAdd_fst]
   exact dr_addAwait (h.of_procs (by simp)) z _ (by simpa using hz)
@@ -143,7 +169,7 @@ theorem dr_finishProc {w : World} (h : DeadRec w) (z : Pid) (val : Int) (stopped
   · subst hpz
     by_cases hsz : p < w.procs.size
     · obtain ⟨a, b, c, _, _, d⟩ := finishProc_record w p hsz val stopped
-      exact ⟨a, b, c, d⟩
+      exact ⟨b, d, fun _ => ⟨a, c⟩⟩
     · have : finishProc w p val stopped = wakeWaiters (finishMid w p stopped) p (if stopped then sigStopped else sigSuccess) := by
         rw [finishProc_eq]
         apply modProc_oob
@@ -154,7 +180,7 @@ theorem dr_finishProc {w : World} (h : DeadRec w) (z : Pid) (val : Int) (stopped
     exact hwake p hp
 
 theorem dr_guardWaitEnter {w : World} (h : DeadRec w) (g : Nat) (z : Pid) (d : Demand)
-    (hz : (w.proc z).status ≠ .finished) : DeadRec (guardWaitEnter w g z d) := by
+    (hz : (w.proc z).status = .running) : DeadRec (guardWaitEnter w g z d) := by
   unfold guardWaitEnter
   split
   · exact h.of_procs (by simp)
@@ -170,7 +196,7 @@ theorem dr_guardWaitLeave {w : World} (h : DeadRec w) (g : Nat) (z : Pid) (sig :
   · exact dr_guardWithdraw h g z
   · exact h
 
-theorem dr_grab {w : World} (h : DeadRec w) (r : Nat) (z : Pid) (hz : (w.proc z).status ≠ .finished) :
+theorem dr_grab {w : World} (h : DeadRec w) (r : Nat) (z : Pid) (hz : (w.proc z).status = .running) :
     DeadRec (grab w r z) := by
   unfold grab
   split
@@ -186,7 +212,7 @@ theorem dr_grab {w : World} (h : DeadRec w) (r : Nat) (z : Pid) (hz : (w.proc z)
 /-! ### pools, buffers, queues -/
 
 theorem dr_poolUpdateRecord {w : World} (h : DeadRec w) (pl : Nat) (z : Pid) (n : Nat)
-    (hz : (w.proc z).status ≠ .finished) : DeadRec (poolUpdateRecord w pl z n) := by
+    (hz : (w.proc z).status = .running) : DeadRec (poolUpdateRecord w pl z n) := by
   have key : DeadRec (w.modProc z fun y => { y with held := .pool pl :: y.held }) :=
     dr_modProc_alive h z _ hz (fun _ => rfl)
   unfold poolUpdateRecord
@@ -223,7 +249,7 @@ theorem poolMug_inv (P : World → Prop) (p : Pid)
       | with_reducible exact hsig _ _ (hrec _ _ (hin _ _ _ (hupd _ _ _ (hs _ _ _ _ _ _ (hrem _ _ _ (hpools _ _ h))))))
 
 /-- the invariant together with "the caller is alive", which every step of a library call keeps -/
-def DeadRecA (p : Pid) (w : World) : Prop := DeadRec w ∧ (w.proc p).status ≠ .finished
+def DeadRecA (p : Pid) (w : World) : Prop := DeadRec w ∧ (w.proc p).status = .running
 
 theorem dra_of_procs {p : Pid} {w w' : World} (h : DeadRecA p w) (e : w'.procs = w.procs) : DeadRecA p w' :=
   ⟨h.1.of_procs e, by rw [proc_congr e]; exact h.2⟩
@@ -242,7 +268,7 @@ theorem dra_poolMug {p : Pid} {w : World} (h : DeadRecA p w) (fuel pl rem : Nat)
 theorem dra_guardWaitEnter_block {p : Pid} {w : World} (h : DeadRecA p w) (g : Nat) (d : Demand) (f : Frame) :
     DeadRecA p (block (guardWaitEnter w g p d) p f).1 := by
   have h1 := dr_guardWaitEnter h.1 g p d h.2
-  have h2 : ((guardWaitEnter w g p d).proc p).status ≠ .finished := by simpa using h.2
+  have h2 : ((guardWaitEnter w g p d).proc p).status = .running := by simpa using h.2
   exact ⟨dr_block h1 p f h2, by simpa using h.2⟩
 
 theorem dra_poolLoop {p : Pid} {w : World} (h : DeadRecA p w) (pl rem initially : Nat) (preempt : Bool) :
